@@ -1,97 +1,8 @@
 (* C14: the CGGI accumulator loops rotate the table by X^(b + sum a_i s_i). *)
 From PV Require Import Base.MachineInt Model.Znx Model.Limbs Model.Ring Model.C14Lut Model.C14Blind.
 From PV Require Import Model.Poly Model.C14Spec.
-From PV Require Import Proofs.C09Lists Proofs.C09Ring Proofs.C14Rotate Proofs.C14Poly.
+From PV Require Import Proofs.C09Lists Proofs.C09Ring Proofs.C14Rotate Proofs.C14Poly Proofs.C14Approx.
 Open Scope Z_scope.
-
-(* ------------------------------------------------------------------ more polynomial algebra *)
-Lemma len_padd a b : length (padd a b) = Nat.min (length a) (length b).
-Proof. apply map2_length. Qed.
-Lemma len_psub a b : length (psub a b) = Nat.min (length a) (length b).
-Proof. apply map2_length. Qed.
-Lemma len_zeros n : length (zeros n) = n.
-Proof. apply repeat_length. Qed.
-
-Ltac plen := repeat (rewrite ?len_padd, ?len_psub, ?zrot_length, ?pscale_length, ?xp_minus_one_length, ?len_zeros in * ); try lia.
-
-Lemma zext_pscale c a k : zext (pscale c a) k = c * zext a k.
-Proof.
-  destruct (Nat.eq_dec (length a) 0) as [H0|H0].
-  { destruct a; [|discriminate]. change (pscale c []) with (@nil Z). rewrite !zext_nil. lia. }
-  set (n := Z.of_nat (length a)).
-  destruct (exp_decomp n k ltac:(lia)) as [q [i [Hk Hi]]].
-  rewrite (zext_at_nat (pscale c a) k q i) by (rewrite pscale_length; fold n; auto; lia).
-  rewrite (zext_at_nat a k q i) by (fold n; auto; lia).
-  rewrite pscale_nth by lia. destruct (Z.even q); lia.
-Qed.
-Lemma zext_xp_minus_one p a k : zext (xp_minus_one p a) k = zext a (k - p) - zext a k.
-Proof. unfold xp_minus_one. rewrite zext_psub by apply zrot_length. rewrite zext_zrot. reflexivity. Qed.
-Lemma zext_zeros n k : zext (zeros n) k = 0.
-Proof.
-  unfold zext. cbv zeta.
-  assert (H : forall i, nthZ (zeros n) i = 0).
-  { intros i. unfold zeros, nthZ. revert i. induction n; intros [|i]; cbn [repeat nth]; auto. }
-  rewrite H. destruct (Z.even _); reflexivity.
-Qed.
-
-(* equalities of polynomials of the same length are decided on the extensions, which are linear *)
-(* identify extension arguments that are equal as integers, so that lia sees the same atoms *)
-Ltac zext_norm := repeat match goal with
-  | |- context [zext ?a ?k1] =>
-      match goal with |- context [zext a ?k2] => assert_fails (constr_eq k1 k2); replace k2 with k1 by lia end
-  end.
-Ltac pext := apply zext_inj; [plen | intros ?k; repeat (rewrite ?zext_padd, ?zext_psub, ?zext_xp_minus_one, ?zext_zrot, ?zext_pscale, ?zext_zeros by plen); zext_norm].
-
-(* ================================================================== standard CGGI, with noise ===== *)
-Section Standard.
-Variable ct : Type.                       (* GLWE ciphertexts *)
-Variable phase : ct -> poly.              (* exact phase (decryption before rounding) *)
-Variable N : nat.
-Variable B : Z.                           (* sup-norm bound on the noise added by one external product *)
-Variable extprod : ct -> nat -> ct.       (* acc [x] BRK_i *)
-Variable mulxp : Z -> ct -> ct.           (* glwe_mul_xp_minus_one_assign *)
-Variable ctadd : ct -> ct -> ct.          (* glwe_add_assign *)
-Variable s : nat -> Z.                    (* the LWE secret *)
-Hypothesis HB : 0 <= B.
-Hypothesis phase_length : forall c, length (phase c) = N.
-Hypothesis s_binary : forall i, s i = 0 \/ s i = 1.
-(* C04: the external product by a GGSW encryption of s_i multiplies the phase by s_i, up to a bounded error *)
-Hypothesis external_product_phase : forall acc i,
-  exists e, length e = N /\ bounded B e /\ phase (extprod acc i) = padd (pscale (s i) (phase acc)) e.
-(* C02: the noise-free operations commute with the phase *)
-Hypothesis phase_mul_xp_minus_one : forall a c, phase (mulxp a c) = xp_minus_one a (phase c).
-Hypothesis phase_add : forall c d, phase (ctadd c d) = padd (phase c) (phase d).
-
-(* execute_standard: for (a_i, brk_i) in zip(a, brk): acc += (X^{a_i} - 1) * (acc [x] brk_i) *)
-Fixpoint std_loop (i : nat) (av : list Z) (acc : ct) : ct :=
-  match av with
-  | [] => acc
-  | a :: t => std_loop (S i) t (ctadd acc (mulxp a (extprod acc i)))
-  end.
-Fixpoint expo (i : nat) (av : list Z) : Z :=
-  match av with [] => 0 | a :: t => a * s i + expo (S i) t end.
-
-Theorem standard_phase (av : list Z) : forall (i : nat) (acc : ct),
-  exists E, length E = N /\ bounded (2 * B * Z.of_nat (length av)) E /\
-            phase (std_loop i av acc) = padd (zrot (expo i av) (phase acc)) E.
-Proof.
-  induction av as [|a t IH]; intros i acc.
-  - exists (zeros N). split; [apply len_zeros|]. split; [apply bounded_zeros; cbn [length Z.of_nat]; lia|].
-    cbn [std_loop expo]. pose proof (phase_length acc). pext. lia.
-  - cbn [std_loop expo].
-    set (acc1 := ctadd acc (mulxp a (extprod acc i))).
-    destruct (IH (S i) acc1) as [E1 [HL1 [HB1 HP1]]].
-    destruct (external_product_phase acc i) as [e [He [Hbe Hpe]]].
-    pose proof (phase_length acc) as Hla.
-    exists (padd (zrot (expo (S i) t) (xp_minus_one a e)) E1).
-    split; [plen|]. split.
-    + replace (2 * B * Z.of_nat (length (a :: t))) with (2 * B + 2 * B * Z.of_nat (length t)) by (cbn [length]; lia).
-      apply padd_bounded; [plen | apply zrot_bounded, xp_minus_one_bounded; exact Hbe | exact HB1].
-    + rewrite HP1. unfold acc1. rewrite phase_add, phase_mul_xp_minus_one, Hpe.
-      destruct (s_binary i) as [Hs|Hs]; rewrite Hs; pext; lia.
-Qed.
-
-End Standard.
 
 (* ================================================================== noise-free phase models ===== *)
 (* the executable standard loop of Model/C14Blind.v *)
